@@ -13,6 +13,7 @@ func init() {
 			ruleWANewPure(c)
 			ruleBTSentinel(c)
 			ruleRecList(c)
+			ruleBTPure(c)
 		})
 
 	register("C03",
@@ -68,6 +69,7 @@ func init() {
 			"Not decided: independence from key order and unknown attributes (the JSON library's struct decoding), and that re-parsing yields an identical value.",
 		func(c *Ctx) {
 			ruleJS(c)
+			ruleJSWhole(c)
 			c.Rule("ER-CHECK", erClauses["ER-CHECK"], 3)
 			schemaT := c.P.NamedType(c.P.Avro, "Schema")
 			for _, name := range []string{"UnmarshalJSONFrom"} {
@@ -113,6 +115,7 @@ func init() {
 			rulePCMeth(c)
 			ruleENCSame(c)
 			ruleJS(c)
+			ruleVarStd(c)
 			ruleBTPtrWrap(c)
 		})
 
@@ -158,6 +161,7 @@ func init() {
 			ruleALStr(c)
 			ruleALBump(c)
 			ruleALKey(c)
+			ruleALFinal(c)
 			ruleODBank(c, findReadFile(c.P))
 			ruleLKPool(c)
 			ruleLKGlobal(c)
